@@ -41,7 +41,7 @@ def category (req ans : String) : String :=
     let ws := words line
     let mn := match ws with | p :: q :: _ => if p == "rep" || p == "repz" || p == "repnz" then p ++ "+" ++ q else p | p :: _ => p | [] => "?"
     s!"L2 {(words req).headD "x"} {mn} -> {(words ans).headD "?"}"
-  | "asm" :: _ | "asm2" :: _ | "opnd" :: _ | "jsp" :: _ | "asmx" :: _ => s!"L3 {(words req).headD "asm"} -> {" ".intercalate ((words ans).take 2)}"
+  | "asm" :: _ | "asm2" :: _ | "opnd" :: _ | "jsp" :: _ | "asmx" :: _ | "asmre" :: _ => s!"L3 {(words req).headD "asm"} -> {" ".intercalate ((words ans).take 2)}"
   | "cli" :: flag :: _ =>
     let out := (pctDecode (fieldOf ans "out")).getD ""
     let kind := if out.startsWith "Syntax Error" then "syntax diagnostic" else if out.startsWith "Label " then "undefined label"
@@ -61,6 +61,7 @@ def handle (req ans : String) : Verdict :=
   | "opnd" :: _ => handleL3 req ans
   | "jsp" :: _ => handleL3 req ans
   | "asmx" :: _ => handleL3 req ans
+  | "asmre" :: _ => handleL3 req ans
   | "cli" :: _ => handleL4 req ans
   | _ => handleL1 r (words ans)
 
